@@ -1066,6 +1066,9 @@ Definition check_c (c : string * pyexpr float * result (pyval float)) : bool :=
 
 
 def run(ctx, build, verdict, ev):
+    if vlib.pins_changed():
+        ctx.source_changed = True  # a hand-modelled function of the representation machinery was edited: search deeper
+
     import multiprocessing
 
     import fuzzylite as fl
